@@ -163,3 +163,27 @@ func LinesEOL(ls []string, eol string) string {
 
 	return strings.Join(ls, eol) + eol
 }
+
+// MoreOftenThanListed returns the rule texts that occur in got more often than
+// there are lines with that text in the lists (an index may legitimately
+// return a rule that is listed twice only once, never the other way round).
+func MoreOftenThanListed(got []string, lists ...string) (out []string) {
+	listed := map[string]int{}
+	for _, l := range lists {
+		for _, line := range strings.Split(l, "\n") {
+			listed[strings.TrimSpace(line)]++
+		}
+	}
+	seen := map[string]int{}
+	for _, t := range got {
+		seen[t]++
+	}
+	for t, n := range seen {
+		if n > listed[t] {
+			out = append(out, t)
+		}
+	}
+	sort.Strings(out)
+
+	return out
+}
